@@ -283,6 +283,7 @@ def run_checks(ctx, want):
         episodes += [["cb race %d %d %d" % (c, m, rounds)] for c, m in ((2, 1), (6, 1), (12, 1), (8, 2))]
         episodes += [["cb reopen %d %d" % (c, rounds * 2)] for c in (3, 8, 16)]
     episodes += multi_epoch_episodes()
+    ctx.cov["multi_epoch_episodes"] = len(multi_epoch_episodes())
     if "C08" in want:
         # state changes from concurrent requests while an observer that reads the breaker is running
         episodes += [["cb notifyrace %d %d" % (c, 1500 if ctx.thorough() else 150)] for c in (2, 4, 8)]
